@@ -35,6 +35,10 @@ void evalTsm(const Spec& spec, Report& rep){
     fx.checkConstructionOf(out, fx.treeTsm->treeTarget, fx.input, fx.lat, "target-", true);
     fx.checkStructureOf(out, fx.treeTsm->treeSource, fx.latSrc, "source-");
     fx.checkStructureOf(out, fx.treeTsm->treeTarget, fx.lat, "target-");
+    if((1L << (Dim*(spec.height-1))) <= 512){
+        rep.counters["lookup_queries"] += fx.checkLookupOf(out, fx.treeTsm->treeSource, "source-");
+        rep.counters["lookup_queries"] += fx.checkLookupOf(out, fx.treeTsm->treeTarget, "target-");
+    }
     fx.tag();
     fx.cx.checkArgs = true;
     const u64 srcParticlesBefore = fx.tsmSourceParticleDigest();
